@@ -126,6 +126,9 @@ pub trait Dyn: Send {
     fn next_item(&mut self, b: &DataItem) -> Vec<f64>;
     fn reset(&mut self);
     fn clone_box(&self) -> Box<dyn Dyn>;
+    fn as_any(&self) -> &dyn std::any::Any;
+    // Clone::clone_from into an existing instance of the same concrete type; false when the types differ
+    fn clone_from_dyn(&mut self, other: &dyn Dyn) -> bool;
     fn ser(&self) -> Vec<u8>;
     fn de(&self, bytes: &[u8]) -> Option<Box<dyn Dyn>>;
     fn display(&self) -> String;
@@ -183,6 +186,18 @@ macro_rules! impl_dyn {
             }
             fn clone_box(&self) -> Box<dyn Dyn> {
                 Box::new(self.clone())
+            }
+            fn as_any(&self) -> &dyn std::any::Any {
+                self
+            }
+            fn clone_from_dyn(&mut self, other: &dyn Dyn) -> bool {
+                match other.as_any().downcast_ref::<$t>() {
+                    Some(o) => {
+                        Clone::clone_from(self, o);
+                        true
+                    }
+                    None => false,
+                }
             }
             fn ser(&self) -> Vec<u8> {
                 bincode::serialize(self).unwrap()
@@ -406,15 +421,38 @@ fn run_case(lines: &[String], out: &mut Vec<String>) {
                 let s: usize = t[1].parse().unwrap();
                 if t[0] == "c" {
                     let d: usize = t[2].parse().unwrap();
-                    match slots[s].as_ref() {
-                        None => "dead".into(),
-                        Some(b) => match quiet(|| b.clone_box()) {
-                            Ok(nb) => {
-                                slots[d] = Some(nb);
-                                "ok".into()
-                            }
+                    // an occupied destination of the same concrete type is overwritten in place through
+                    // Clone::clone_from (what `a.clone_from(&b)` does in user code); otherwise a fresh clone is stored
+                    if s != d && slots[s].is_some() && slots[d].is_some() {
+                        let src = slots[s].take().unwrap();
+                        let r = {
+                            let dst = slots[d].as_mut().unwrap();
+                            quiet(|| dst.clone_from_dyn(src.as_ref()))
+                        };
+                        let out = match r {
+                            Ok(true) => "ok".to_string(),
+                            Ok(false) => match quiet(|| src.clone_box()) {
+                                Ok(nb) => {
+                                    slots[d] = Some(nb);
+                                    "ok".into()
+                                }
+                                Err(m) => format!("panic {}", m),
+                            },
                             Err(m) => format!("panic {}", m),
-                        },
+                        };
+                        slots[s] = Some(src);
+                        out
+                    } else {
+                        match slots[s].as_ref() {
+                            None => "dead".into(),
+                            Some(b) => match quiet(|| b.clone_box()) {
+                                Ok(nb) => {
+                                    slots[d] = Some(nb);
+                                    "ok".into()
+                                }
+                                Err(m) => format!("panic {}", m),
+                            },
+                        }
                     }
                 } else if t[0] == "x" {
                     slots[s] = None;
